@@ -19,8 +19,57 @@ def make_cases(tier, seed):
     return cases
 
 
+def steered_cases(tier, seed):
+    """histories padded until the closing break is written with the staging buffer exactly full / one byte short
+    (fill level observed through the encoder hook); the break is written by rotate_output or by destruction"""
+    n = 12 if tier == 'quick' else 120
+    templ = []
+    for i in range(n):
+        r = gen.seeded(seed, 'C13s', i)
+        target = [2048, 2047, 2048, 2046][i % 4]
+        how = 'rotate' if i % 3 else 'destroy'
+        pre = gen.gen_preamble(r, nbps=1, maxi=10000, hints=(gen.ALL_QRH, gen.ALL_SIGH, 3, 3), tps=1000)
+        pre['bps'][0].pop('cp', None)
+        comp = r.choice(['none', 'gzip', 'xz'])
+        kind = r.choice(['name', 'fd'])
+        P = gen.Pools(r)
+        recs = [{'op': 'qr', 'r': gen.gen_qr(r, P, 1000, 10 ** 9, 'full')} for _ in range(r.choice([1, 3, 9]))]
+        templ.append(dict(i=i, target=target, how=how, pre=pre, comp=comp, kind=kind, recs=recs, pad=r.randrange(0, 64), done=False))
+
+    def build(t):
+        ops = [{'op': 'qr', 'r': {'tid': 1, 'asn': '61' * t['pad']}}] + t['recs'] + [{'op': 'wb'}]
+        if t['how'] == 'rotate':
+            ops += [{'op': 'rotate', 'id': 'o1', 'export': False}, {'op': 'qr', 'r': {'tid': 2}}, {'op': 'wb'}]
+        return {'id': 's%03d' % t['i'], 'preamble': t['pre'], 'open': {'id': 'o0', 'kind': t['kind'], 'comp': t['comp']}, 'ops': ops}
+    for it in range(8):
+        todo = [t for t in templ if not t['done']]
+        if not todo:
+            break
+        cs = [build(t) for t in todo]
+        res, crashes, wd = pipeline.run_histories(cs, 'c13s')
+        from vlib import runner
+        runner.cleanup(wd)
+        for j, t in enumerate(todo):
+            r = res.get(j)
+            if r is None:
+                t['done'] = True
+                continue
+            ent = [e for e in r['log'] if e['op'] == t['how']]
+            fill = ent[0].get('fill') if ent else None
+            if fill is None or fill == t['target']:
+                t['done'] = True
+                t['hit'] = fill == t['target']
+            else:
+                t['pad'] = t['pad'] + (t['target'] - fill) % 2048
+                if t['pad'] > 6000:
+                    t['pad'] %= 2048
+    return [build(t) for t in templ], sum(1 for t in templ if t.get('hit'))
+
+
 def run(tier, seed):
     cases = make_cases(tier, seed)
+    steered, steered_hits = steered_cases(tier, seed)
+    cases += steered
     er = ExportRun(PROP, cases, 'c13', need_lib_read=True)
     try:
         vs = er.violations
@@ -41,7 +90,7 @@ def run(tier, seed):
                 prev = op['op']
             # records buffered at a non-exporting rotation: model counters tell
         obs = dict(er.obs)
-        obs.update(outputs_without_blocks=empty_outputs, consecutive_rotations=consecutive)
+        obs.update(outputs_without_blocks=empty_outputs, consecutive_rotations=consecutive, closing_break_written_at_steered_buffer_fill=steered_hits)
         nt = er.nontrivial(lambda pc: sum(1 for o in pc['case']['ops'] if o['op'] == 'rotate') >= 1 and len(pc['docs']) >= 1)
         cov = dict(evaluations=len(cases), distinct_nontrivial=nt,
                    rule='exporter histories with rotate_output(name|fd, export in {true,false}), consecutive rotations, add/set block parameters, all compressions; '
